@@ -16,11 +16,15 @@ SPEC = {
                    "of the deterministic scheduler, one os/http call per step ('os' and 'net/http' of internal/upload "
                    "rewritten to yielding shims in the scratch copy): random and bounded-context-switch schedules, "
                    "kills after a random call, scripted server answers 200 / 4xx (400, 401, 403, 404, 408, 410, 413, 425, 429, 431, 451) / 5xx (500, 502, 503, 504) / 3xx / none (a quarter of the answers with a body that cannot be read: "
-                   "status line and headers arrive, the connection is cut - the status decides all the same), a scripted "
+                   "status line and headers arrive, the connection is cut - the status decides all the same; a fifth with a SLOW "
+                   "answer: the server has processed the request, its answer arrives after 30 s of simulated time - a client "
+                   "with a shorter timeout would give up on a request the server has acknowledged), a scripted "
                    "create-then-read race, the scripted 'lateunlock' scenario (three runs, two or three weeks to upload: "
                    "run A's first request fails and A is parked before its second, run B locks the first week and is "
                    "parked before its request, A runs to its END, run C runs completely, then B's request goes out), "
-                   "the scripted 'oldlock' scenario (run A holds a week's lock and is parked before its request, more than a "
+                   "the scenario 'stubborn' (two or three weeks to upload, the server never accepts the OLDEST one - 5xx or "
+                   "no answer, also in the final run - and answers 200 for the others: they must be delivered all the same; "
+                   "not_delivered does not count a week the final run's request for which the server refused), the scripted 'oldlock' scenario (run A holds a week's lock and is parked before its request, more than a "
                    "day passes - every lock file of upload/ is back-dated by 25-72 h -, run B runs completely, then A's "
                    "request goes out), stale locks of dead uploaders with mtimes 2-72 h old (file ages are part of the "
                    "state), "
